@@ -243,6 +243,7 @@ def _val_to_fraction(v):
     raise ValueError('unexpected model value %r' % (v,))
 
 
+LAST_PROVED_SMT = [None]
 STATS = {'z3_calls': 0, 'z3_seconds': 0.0, 'cvc5_calls': 0, 'cvc5_seconds': 0.0, 'unknown': 0}
 
 
@@ -355,6 +356,11 @@ def _check_once(claim, hyps, region_conds=(), timeout_ms=20000, want_model=True)
     res = s.check()
     STATS['z3_seconds'] += time.time() - t0
     if res == z3.unsat:
+        if LAST_PROVED_SMT[0] is None:
+            try:
+                LAST_PROVED_SMT[0] = s.to_smt2()[:1800]
+            except Exception:     # noqa: BLE001
+                pass
         return 'proved', 'z3', None
     if res == z3.sat:
         if not want_model:
